@@ -25,7 +25,8 @@ LEVEL = 'fault_enumeration'
 
 
 def _one(arg):
-    sc, index, variant, label = arg
+    sc, index, variant, label = arg[:4]
+    order = arg[4] if len(arg) > 4 else 'clean-then-commit'
     viol = []
     probe_key = None
     try:
@@ -49,32 +50,39 @@ def _one(arg):
                     viol.append(('returned-normally-but-incomplete', f'the operation returned normally under the fault but object {k[:10]} '
                                                                      f'is {"missing" if raw_now.object_bytes(k) is None else "wrong"} afterwards'))
         # 1. the faulted handle may raise, but never returns wrong bytes / reports a stored object absent
-        for k in info['keys']:
-            if k in info['damaged']:
-                continue
-            try:
-                b = w.h.get_object_content(k)
-                if b != content[k]:
-                    viol.append(('faulted-handle-wrong-bytes', f'{k[:10]} read back as {b[:20]!r} through the faulted handle'))
-            except NotExistent:
-                if k in info['must']:
-                    viol.append(('faulted-handle-lost', f'faulted handle reports stored object {k[:10]} as absent'))
-            except Exception:  # pylint: disable=broad-except
-                pass      # loud failure of the faulted handle is allowed
+        def faulted_handle_reads():
+            # keys the failed operation was adding come first: a lookup of an absent key makes the handle reload its session,
+            # which would hide rows the failed operation left pending
+            for k in sorted(info['keys'], key=lambda x: (x not in info['maybe'], x not in info['must'])):
+                if k in info['damaged']:
+                    continue
+                try:
+                    b = w.h.get_object_content(k)
+                    if b != content[k]:
+                        viol.append(('faulted-handle-wrong-bytes', f'{k[:10]} read back as {b[:20]!r} through the faulted handle'))
+                except NotExistent:
+                    if k in info['must']:
+                        viol.append(('faulted-handle-lost', f'faulted handle reports stored object {k[:10]} as absent'))
+                except Exception:  # pylint: disable=broad-except
+                    pass      # loud failure of the faulted handle is allowed
+        if order == 'clean-then-commit':
+            faulted_handle_reads()          # in the other order the reads come after the follow-up operations
         raw_mid = RawState(w.root)
         interrupted_repack = sc.op[0] in ('repack', 'repack_pack') and (
             any(r.pack_id == -1 for r in raw_mid.rows) or '-1' in raw_mid.packs and any(r.pack_id == -1 for r in raw_mid.rows)
             or any(str(r.pack_id) not in raw_mid.packs for r in raw_mid.rows))
-        # 1b. ordinary maintenance through the same (faulted) handle must not make things worse: clean_storage() only ever removes
-        #     loose copies of objects whose index entry is committed
-        if res.exc is not None and not interrupted_repack:
+        # 1b / 1c. the handle stays in use after the failed operation, in both orders (one order per execution):
+        #   - ordinary maintenance: clean_storage() only ever removes loose copies of objects whose index entry is committed;
+        #   - an unrelated operation that commits (a direct-to-pack write) must not publish anything the failed operation left
+        #     pending in the handle's session.
+        def follow_clean():
             try:
                 w.h.clean_storage()
             except Exception:  # pylint: disable=broad-except
                 pass
-        # 1c. the handle stays in use: a later, unrelated operation that commits (a direct-to-pack write) must not publish anything
-        #     the failed operation left pending in the handle's session
-        if res.exc is not None and not interrupted_repack:
+
+        def follow_commit():
+            nonlocal probe_key
             probe = b'post-fault-probe-object'
             from ..common import H
             pk = H(probe, w.config['hash_type'])
@@ -88,6 +96,12 @@ def _one(arg):
                 w.h.add_objects_to_pack([probe])
             except Exception:  # pylint: disable=broad-except
                 pass
+
+        if res.exc is not None and not interrupted_repack:
+            for step in ((follow_clean, follow_commit) if order == 'clean-then-commit' else (follow_commit, follow_clean)):
+                step()
+        if order != 'clean-then-commit':
+            faulted_handle_reads()
         for hh in w.handles:
             hh.close()
         # 2. raw state + fresh handle: the C05 oracle
@@ -189,20 +203,21 @@ def run(tier, report):
         for i, lab in enumerate(labs):
             if sc.fault_kinds is not None and lab.split(':')[0] not in sc.fault_kinds:
                 continue          # a scenario with a very long call list: only the listed call kinds are faulted
-            tasks.append((sc, i, 'eio', lab))
+            for order in ('clean-then-commit', 'commit-then-clean'):
+                tasks.append((sc, i, 'eio', lab, order))
             if lab.startswith('f.write'):
-                tasks.append((sc, i, 'partial', lab))
+                tasks.append((sc, i, 'partial', lab, 'commit-then-clean'))
             if lab.startswith('open.'):
-                tasks.append((sc, i, 'eacces', lab))      # an OSError of another kind: PermissionError (EACCES)
+                tasks.append((sc, i, 'eacces', lab, 'clean-then-commit'))      # an OSError of another kind: PermissionError (EACCES)
     results = pmap(_one, tasks, progress='C17 faults' if len(tasks) > 500 else None)
     distinct = set()
     outcomes = {}
     samples = []
-    for (sc, i, variant, lab), (viol, outcome) in zip(tasks, results):
+    for (sc, i, variant, lab, order), (viol, outcome) in zip(tasks, results):
         distinct.add((sc.name.split('@')[0], lab.split(':')[0], variant))
         outcomes[outcome] = outcomes.get(outcome, 0) + 1
         if len(samples) < 4 and i == 3:
-            samples.append({'scenario': sc.key(), 'fault_index': i, 'call': lab, 'variant': variant, 'outcome': outcome})
+            samples.append({'scenario': sc.key(), 'fault_index': i, 'call': lab, 'variant': variant, 'follow_up': order, 'outcome': outcome})
         seen = set()
         for clause, detail in viol:
             if clause in seen:
@@ -211,7 +226,7 @@ def run(tier, report):
             fp = {'engine': 'crashx-fault', 'clause': clause, 'scenario': sc.name.split('@')[0], 'call': lab.split(':')[0], 'variant': variant}
             fp.update(op_fingerprint(sc.op))
             report.add_violation(Violation('C17', 'crashx-fault', clause,
-                                           {'scenario': sc.key(), 'fault_index': i, 'variant': variant, 'call': lab}, detail, fp))
+                                           {'scenario': sc.key(), 'fault_index': i, 'variant': variant, 'call': lab, 'order': order}, detail, fp))
     cov = report.coverage
     cov['evaluations'] = len(tasks)
     cov['distinct_nontrivial'] = len(distinct)
@@ -228,4 +243,4 @@ def replay(case):
     from .c05 import _t
     s = case['scenario']
     sc = Scenario(s['name'], [_t(o) for o in s['setup']], _t(s['op']), s.get('config'), universe=universe5(), thresholds=tuple(s['thresholds']) if s.get('thresholds') else None)
-    return _one((sc, case['fault_index'], case['variant'], case['call']))[0]
+    return _one((sc, case['fault_index'], case['variant'], case['call'], case.get('order', 'clean-then-commit')))[0]
